@@ -56,6 +56,12 @@ theorem C19_list_printer_generated (D : Desc) (s : St) (x : List Byte) :
     cmdListNextCmd D s = Gen.cmd_list_next_cmd D s :=
   ⟨printCmdList_generated D s, printCurrentCmdFullName_generated D s x, cmdListNextCmd_generated D s⟩
 
+
+/-- fits-or-fails of every piece of a TEST response and of every command-list line goes through the printing primitive,
+the transliteration of `print_nstring_to_buf` (translator item T22) -/
+theorem C19_print_generated (D : Desc) (s : St) (f : Fsm) (x : List Byte) : printN D s f x = Gen.print_nstring_to_buf D s f x :=
+  printN_generated D s f x
+
 /-- the counters this property's theorems keep as unbounded natural numbers (`var_num`, `cmd_group_num`, `cmd_num`, `commands_num`, `index`, `position`, `index`, `position`) are declared
 `size_t` in `cat.h` — 64 bits on the target, so they cannot wrap on any buffer, table or line that exists; the widths
 are read from the struct declarations on every run (translator item T21) -/
@@ -68,10 +74,5 @@ theorem C19_counters_unbounded :
     Gen.width_obj_position = 64 ∧
     Gen.width_uns_index = 64 ∧
     Gen.width_uns_position = 64 := by decide
-
-/-- fits-or-fails of every piece of a TEST response and of every command-list line goes through the printing primitive,
-the transliteration of `print_nstring_to_buf` (translator item T22) -/
-theorem C19_print_generated (D : Desc) (s : St) (f : Fsm) (x : List Byte) : printN D s f x = Gen.print_nstring_to_buf D s f x :=
-  printN_generated D s f x
 
 end Cat
